@@ -68,6 +68,15 @@ def run(ctx):
         inputs.append(f)
         inputs.append(b"\xb5\x62" + content + uh.calc_checksum(content))
         inputs.append(f[:-1] + bytes([f[-1] ^ 0x10]))
+    # every possible pair of header bytes in front of an otherwise valid frame (only b5 62 may be accepted)
+    body = frames[1][2:] if len(frames) > 1 else gen.ubx_frame(5, 1, b"\x06\x01")[2:]
+    hdrs = [bytes([a, b]) for a in range(256) for b in range(256)]
+    if ctx.quick():
+        hdrs = [h for h in hdrs if h[0] in (0xb5, 0x24, 0xd3, 0x62, 0x00, 0xff) or h[1] in (0x62, 0x00) or (h[0] * 7 + h[1]) % 11 == 0]
+    else:
+        ctx.exhaustive_parts.append("all 65536 two-byte headers in front of a valid frame body")
+    for h in hdrs:
+        inputs.append(h + body)
     ctx.count("inputs", len(inputs))
 
     cmds = []
